@@ -835,7 +835,7 @@ func (o *oracles) withCause(rep0 reporter) reporter {
 	return func(clause, sig string, format string, a ...any) {
 		w := o.w
 		has := false
-		for _, m := range []string{"victim-", "class-changed", "sliced-by-ancestor", "pool-without", "after-rejected", "allocated-under", "after-reconfiguration", "stale-pinning-of-grant"} {
+		for _, m := range []string{"victim-", "class-changed", "sliced-by-ancestor", "pool-without", "pool-shared-cpus-all", "after-rejected", "allocated-under", "after-reconfiguration", "stale-pinning-of-grant"} {
 			if strings.Contains(sig, m) {
 				has = true
 			}
